@@ -273,7 +273,15 @@ class ValueRangeConstraint(AbstractConstraint):
         teen_year = TeenAgeYears(20)
     """
     def _testValue(self, value, idx):
-        if value < self.start or value > self.stop:
+        try:
+            outside = value < self.start or value > self.stop
+
+        except TypeError:
+            # what cannot be ordered against the bounds (no value at
+            # all: an absent component) is not within them
+            outside = True
+
+        if outside:
             raise error.ValueConstraintError(value)
 
     def _setValues(self, values):
